@@ -208,7 +208,9 @@ def unstring_annotation(node: ast.expr, ctx:'model.Documentable', section:str='a
     """
     try:
         expr = _AnnotationStringParser().visit(node)
-    except SyntaxError as ex:
+    except (SyntaxError, ValueError, RecursionError) as ex:
+        # ValueError: the string can't be passed to the parser (i.e. it contains surrogates);
+        # RecursionError: the parser gave up on a too deeply nested expression.
         module = ctx.module
         assert module is not None
         module.report(f'syntax error in {section}: {ex}', lineno_offset=node.lineno, section=section)
